@@ -202,7 +202,13 @@ void build_sources(Ctx &c) {
         if (i == 0) mix = 0;                               // source 0 is always plain ASCII
         size_t len = 720;
         s.sc.reserve(len);
-        for (size_t k = 0; k < len; k++) s.sc += draw_scalar(r, mix);
+        // homogeneous sources: the extreme expansion ratios between encodings (every character 4, 3 or 2 UTF-8 bytes; every one a surrogate pair)
+        const bool homogeneous = c.plan->k.text_mix != 0 && i >= 1 && i <= 3;
+        for (size_t k = 0; k < len; k++) {
+            char32_t ch = draw_scalar(r, mix);
+            if (homogeneous) ch = i == 1 ? (char32_t)(0x10000 + r.below(0x100000)) : i == 2 ? (char32_t)(0x800 + r.below(0xD000)) : (char32_t)(0xA0 + r.below(0x700));
+            s.sc += ch;
+        }
         c.sources.push_back(s);
     }
 }
